@@ -62,7 +62,8 @@ class DensityMatrixEvolution(MatrixData, BasisManaged, Saveable):
 
         ti, dt = self.TimeAxis.locate(time)
 
-        return DensityMatrix(data=self.data[ti, :, :])
+        # a copy: the object handed out has its own basis bookkeeping
+        return DensityMatrix(data=self.data[ti, :, :].copy())
 
 
     def transform(self, SS, inv=None):
@@ -316,5 +317,6 @@ class ReducedDensityMatrixEvolution(DensityMatrixEvolution):
 
         ti, dt = self.TimeAxis.locate(time)
 
-        return ReducedDensityMatrix(data=self.data[ti, :, :])
+        # a copy: the object handed out has its own basis bookkeeping
+        return ReducedDensityMatrix(data=self.data[ti, :, :].copy())
 
